@@ -96,8 +96,8 @@ fn("pool/base.py::Pool._create_connection", abstract=True, cls="QueuePool", para
    requires=["self.mine >= 1"],
    modifies=["self.slots", "self.pending", "self.mine"],
    ensures=["self.slots == old(self.slots) + 1", "self.pending == old(self.pending) - 1", "self.mine == old(self.mine) - 1"],
-   may_raise={"Exception": "True"},
-   notes="creates one _ConnectionRecord: the caller's claim becomes a slot; or raises with nothing created and the claim still held")
+   may_raise={"BaseException": "True"},
+   notes="creates one _ConnectionRecord: the caller's claim becomes a slot; or raises (anything, incl. KeyboardInterrupt / greenlet exits from the creator) with nothing created and the claim still held")
 fn("pool/base.py::_ConnectionRecord.close", abstract=True, cls="_ConnectionRecord", params=["self", "pool"], returns="none",
    types={"pool": "QueuePool"},
    modifies=["pool.slots", "pool.pending", "pool.mine"],
@@ -114,15 +114,15 @@ fn(P + "_do_return_conn", cls="QueuePool", props=["C25"], returns="none", monito
    may_raise={"Exception": "True"}, exc_ensures={"Exception": G + ["self.mine == old(self.mine)"]},
    modifies=SHARED)
 
-fn(P + "_do_get", cls="QueuePool", props=["C25"], returns="_ConnectionRecord", monitor=MON,
+fn(P + "_do_get", cls="QueuePool", props=["C25", "C26"], returns="_ConnectionRecord", monitor=MON,
    types={"use_overflow": "bool", "wait": "bool"},
    requires=G,
    callees={"self._pool.get": Q + "get", "self._do_get": P + "_do_get", "self._inc_overflow": P + "_inc_overflow",
             "self._dec_overflow": P + "_dec_overflow", "self._create_connection": "pool/base.py::Pool._create_connection",
             "self.size": "havoc:int", "self.overflow": "havoc:int"},
    ensures=G + ["self.mine == old(self.mine)"],
-   may_raise={"TimeoutError": "True", "Exception": "True"},
-   # the accounting also holds when the creator fails (claim released by _dec_overflow) or the pool times out
-   exc_ensures={"Exception": G + ["self.mine == old(self.mine)"]},
+   may_raise={"TimeoutError": "True", "BaseException": "True"},
+   # the accounting also holds when the creator fails with ANY exception (claim released by _dec_overflow) or the pool times out
+   exc_ensures={"BaseException": G + ["self.mine == old(self.mine)"]},
    modifies=SHARED,
    notes="partial correctness: the recursive calls are checked against this same contract")
